@@ -215,7 +215,14 @@ pub fn exec(f: &[String]) -> Option<String> {
     let (es, _) = parse_entries(f[1].as_bytes(), 0)?;
     let w = World::new(&es);
     let route = if f[3] == "-" { String::new() } else { text(&f[3])? };
-    let r = run_one(&w, &f[0], &text(&f[2])?, &route, &text(&f[4])?);
+    let r = if let Some(h) = f[0].strip_suffix("_tokio") {
+        match Tokio::start() {
+            Some(mut t) => Some(run_one_tokio(&mut t, &w, h, &text(&f[2])?, &route, &text(&f[4])?)),
+            None => Some("HVT-NOT-BUILT".into()),
+        }
+    } else {
+        run_one(&w, &f[0], &text(&f[2])?, &route, &text(&f[4])?)
+    };
     w.remove();
     r
 }
@@ -389,6 +396,60 @@ fn lower_escapes(s: &str) -> String {
 struct Gen<'a> {
     out: &'a mut Out,
     rng: Rng,
+    tokio: Option<Tokio>,
+}
+
+/// Co-process `hvt __c06serve`: the async twins of `serve_dir` / `serve_as_file_path` (humphrey built with
+/// `--features tokio`), asked the same question about the same on-disk tree.
+struct Tokio {
+    child: std::process::Child,
+    stdin: std::process::ChildStdin,
+    stdout: std::io::BufReader<std::process::ChildStdout>,
+}
+
+impl Tokio {
+    fn start() -> Option<Tokio> {
+        let me = std::env::current_exe().ok()?;
+        let verif = me.parent()?.parent()?.parent()?.parent()?;
+        let exe = verif.join("harness-tokio").join("target").join("release").join("hvt");
+        if !exe.exists() {
+            return None;
+        }
+        let mut child = std::process::Command::new(exe)
+            .arg("__c06serve")
+            .stdin(std::process::Stdio::piped())
+            .stdout(std::process::Stdio::piped())
+            .stderr(std::process::Stdio::null())
+            .spawn()
+            .ok()?;
+        let stdin = child.stdin.take()?;
+        let stdout = std::io::BufReader::new(child.stdout.take()?);
+        Some(Tokio { child, stdin, stdout })
+    }
+    fn ask(&mut self, handler: &str, full_dir: &str, route: &str, uri: &str) -> Option<String> {
+        use std::io::{BufRead, Write};
+        writeln!(self.stdin, "{}\t{}\t{}\t{}", handler, hex(full_dir.as_bytes()), hex(route.as_bytes()), hex(uri.as_bytes())).ok()?;
+        self.stdin.flush().ok()?;
+        let mut line = String::new();
+        let n = self.stdout.read_line(&mut line).ok()?;
+        if n == 0 {
+            return None;
+        }
+        Some(line.trim_end_matches('\n').to_string())
+    }
+}
+
+impl Drop for Tokio {
+    fn drop(&mut self) {
+        let _ = self.child.kill();
+        let _ = self.child.wait();
+    }
+}
+
+/// One request to the tokio twin of `handler` (`serve_dir` / `serve_as_file_path`).
+fn run_one_tokio(t: &mut Tokio, w: &World, handler: &str, dir: &str, route: &str, uri: &str) -> String {
+    let full: String = format!("{}/{}", w.base, dir);
+    t.ask(handler, &full, route, uri).unwrap_or_else(|| "ABORT".into())
 }
 
 const DIR_SPELLINGS: &[&str] = &[
@@ -423,6 +484,22 @@ impl<'a> Gen<'a> {
         let route_field = if route == "-" { "-".to_string() } else { hex(route.as_bytes()) };
         let nontrivial = special || status == "200" || status == "301";
         self.out.case(&[handler, &w.enc, &hex(dir.as_bytes()), &route_field, &hex(uri.as_bytes()), tag], &impl_out, nontrivial);
+        // the same question to the async twin (tokio runtime)
+        if handler == "serve_dir" || handler == "serve_as_file_path" {
+            if let Some(t) = self.tokio.as_mut() {
+                let t_out = run_one_tokio(t, w, handler, dir, r, uri);
+                let name = format!("{}_tokio", handler);
+                let status = t_out.split('|').next().unwrap_or("").to_string();
+                self.out.count(&format!("{}:{}", name, status));
+                if t_out.ends_with("|1") {
+                    self.out.count("canary-bytes-returned");
+                }
+                if t_out != impl_out {
+                    self.out.count("tokio-differs-from-threaded");
+                }
+                self.out.case(&[&name, &w.enc, &hex(dir.as_bytes()), &route_field, &hex(uri.as_bytes()), tag], &t_out, nontrivial);
+            }
+        }
     }
 }
 
@@ -433,7 +510,11 @@ fn lossy(b: &[u8]) -> String {
 pub fn gen(out: &mut Out, thorough: bool, seed: u64) {
     let (trees, fuzz_per_tree) = if thorough { (30, 8_000) } else { (6, 2_600) };
     let rng = Rng::new(seed);
-    let mut g = Gen { out, rng };
+    let tokio = Tokio::start();
+    if tokio.is_none() {
+        out.extra.insert("tokio".into(), "hvt not built: the async twins of the handlers were not exercised".into());
+    }
+    let mut g = Gen { out, rng, tokio };
     for _ in 0..trees {
         let es = gen_world(&mut g.rng);
         let w = World::new(&es);
